@@ -15,7 +15,7 @@ Missing(m) == m.typed /\ (m.miss \/ m.oh = "" \/ m.realm = "")
 Applicable(m, p) == (IF Missing(m) /\ MCfg.node.validate THEN {5005} ELSE {}) \cup
                     (IF m.realm = "" THEN {3003, 3007, 5012} ELSE {}) \cup
                     (IF m.realm # "" /\ m.realm \notin Served THEN {3003} ELSE {}) \cup
-                    (IF m.realm # "" /\ Matching(m, p) = {} THEN {3007} ELSE {})
+                    (IF m.realm # "" /\ m.realm \in Served /\ Matching(m, p) = {} THEN {3007} ELSE {})     \* (an unserved realm is 3003, not 3007)
 
 \* connection bookkeeping common to the routing monitors
 RInit == [dir  |-> [c \in CIds |-> ""], rdy |-> [c \in CIds |-> FALSE], gone |-> [c \in CIds |-> FALSE],
